@@ -7,14 +7,17 @@ ID = "C06"
 LEVEL = "model_checking"
 TECHNIQUE = "explicit-state BFS over real DeferredLock/DeferredSemaphore objects, lock-step list reference"
 RULE = ("BFS over histories of new request (acquire; acquire whose callback releases re-entrantly; run(f) with f "
-        "returning / raising / returning an unfired Deferred), release by a holder, cancel of a pending, granted or "
+        "returning / raising / returning an unfired Deferred / returning an already fired Deferred that still waits "
+        "on an inner unfired Deferred or is pause()d), release by a holder, cancel of a pending, granted or "
         "running request, fire (ok/fail) of a run function's Deferred, on a real DeferredLock and "
         "DeferredSemaphore(1..3). Every transition runs on the real object; the global grant order, the holder "
         "count at every grant (also inside re-entrant cascades), the documented tokens/locked attributes and the "
         "run() results are compared with a FIFO list reference. non-trivial = distinct (canonical state, "
         "exercised case) pairs for transitions in which a request had to wait, a release or a run() result "
         "granted none / one / a re-entrant cascade of waiters, or a pending / granted / running request was cancelled")
-BOUNDS = {"quick": "lock + semaphore limits 1..3, depth 8", "thorough": "lock + semaphore limits 1..3, depth 9"}
+BOUNDS = {"quick": "lock + semaphore limits 1..3; depth 8 (5 basic request kinds) and depth 7 (all 7 kinds, incl. "
+                   "fired-but-chained and fired-but-paused function Deferreds)",
+          "thorough": "lock + semaphore limits 1..3; depth 9 (5 basic request kinds) and depth 8 (all 7 kinds)"}
 ASSUMPTIONS = [
     "canonical state = live (pending / held / running) requests in request order with kind and observed status, the "
     "real waiting list mapped to those requests, tokens/locked; completed, released and cancelled requests are "
@@ -34,7 +37,13 @@ LEVEL_NOTE = ("bounded: limits 1..3, depth 8/9; callbacks re-enter only through 
 
 CONFIGS = [("lock", 1), ("sem", 1), ("sem", 2), ("sem", 3)]
 KINDS = ["A", "AR", "RV", "RX", "RD"]
-DEPTH = {"quick": 8, "thorough": 9}
+# RC: f returns a Deferred that is already fired (.called) but whose chain waits on an inner unfired
+#     Deferred (fired ok/fail later); RP: f returns a Deferred that is already fired but pause()d
+#     (unpaused later).  In both the function's result is not available yet although .called is True.
+KINDS_ALL = KINDS + ["RC", "RP"]
+LATE = ("RD", "RC", "RP")     # run() kinds whose function result arrives later
+# families (request kinds, depth) per tier
+FAMILIES = {"quick": [(KINDS, 8), (KINDS_ALL, 7)], "thorough": [(KINDS, 9), (KINDS_ALL, 8)]}
 
 
 class FnError(Exception):
@@ -43,7 +52,7 @@ class FnError(Exception):
 
 class Req:
     __slots__ = ("idx", "kind", "m", "d", "granted", "released", "inside", "fn_calls", "fn_d", "fn_res",
-                 "res", "exp")
+                 "res", "exp", "inner")
 
     def __init__(self, idx, kind):
         self.idx, self.kind = idx, kind
@@ -53,7 +62,8 @@ class Req:
         self.released = False   # harness released it (A, AR)
         self.inside = False     # currently inside the grant callback / the run function
         self.fn_calls = 0
-        self.fn_d = None        # Deferred returned by an RD function
+        self.fn_d = None        # Deferred returned by an RD/RC/RP function
+        self.inner = None       # RC: the unfired Deferred the returned one is waiting on
         self.fn_res = []        # observed results of fn_d
         self.res = []           # observed results of d: ("ok", v) / ("err", type)
         self.exp = None         # expected result of a run(): ("ok", v) / ("err", type)
@@ -85,7 +95,7 @@ class St:
             n += 1
             if nxt.kind == "A":
                 nxt.m = "held"
-            elif nxt.kind == "RD":
+            elif nxt.kind in LATE:
                 nxt.m = "running"
             else:
                 nxt.m = "done"      # AR releases inside its callback; RV/RX finish synchronously
@@ -105,7 +115,7 @@ class St:
             if q.kind in ("A", "AR"):
                 if not q.released:
                     n += 1
-            elif q.kind == "RD":
+            elif q.kind in LATE:
                 if q.inside or (q.fn_d is not None and not q.fn_res):
                     n += 1
             elif q.inside:
@@ -178,7 +188,17 @@ def apply(st, ev):
                 def seen(r, q=q):
                     q.fn_res.append(r)
                     return r
-                q.fn_d.addBoth(seen)
+                if q.kind == "RC":
+                    q.inner = Deferred()
+                    q.fn_d.addCallback(lambda _, q=q: q.inner)
+                    q.fn_d.addBoth(seen)
+                    q.fn_d.callback(None)      # .called is True, the chain waits on q.inner
+                elif q.kind == "RP":
+                    q.fn_d.pause()
+                    q.fn_d.callback(("late", q.idx))   # .called is True, delivery waits for unpause()
+                    q.fn_d.addBoth(seen)
+                else:
+                    q.fn_d.addBoth(seen)
                 return q.fn_d
             q.d = _guard(st, "run", p.run, f)
         if q.d is not None:
@@ -206,7 +226,7 @@ def apply(st, ev):
         _guard(st, "cancel", q.d.cancel)
         if q.m == "pending":
             q.m = "cancelled"
-            if q.kind in ("RV", "RX", "RD"):
+            if q.kind[0] == "R":
                 from twisted.internet.defer import CancelledError
                 q.exp = ("err", CancelledError)
         elif q.m == "running":
@@ -218,10 +238,14 @@ def apply(st, ev):
     elif op == "fire":
         running = [q for q in st.reqs if q.m == "running"]
         q = running[ev[1]]
-        if ev[2]:
-            _guard(st, "fire", q.fn_d.callback, ("late", q.idx))
+        if q.kind == "RP":
+            _guard(st, "fire", q.fn_d.unpause)
         else:
-            _guard(st, "fire", q.fn_d.errback, FnError())
+            target = q.inner if q.kind == "RC" else q.fn_d
+            if ev[2]:
+                _guard(st, "fire", target.callback, ("late", q.idx))
+            else:
+                _guard(st, "fire", target.errback, FnError())
         _fn_done(st, q)
 
 
@@ -234,15 +258,16 @@ def _fn_done(st, q):
     st.last_flags.add("run-%s-grants-%s" % (q.exp[0], "none" if not n else "one" if n == 1 else "cascade"))
 
 
-def enabled(st):
-    evs = [("new", k) for k in KINDS]
+def enabled(st, kinds=KINDS):
+    evs = [("new", k) for k in kinds]
     for k, q in enumerate(q for q in st.reqs if q.m == "held"):
         evs.append(("rel", k))
     for k, q in enumerate(q for q in st.reqs if q.m in ("pending", "held", "running")):
         evs.append(("cancel", k))
     for k, q in enumerate(q for q in st.reqs if q.m == "running"):
         evs.append(("fire", k, 1))
-        evs.append(("fire", k, 0))
+        if q.kind != "RP":
+            evs.append(("fire", k, 0))
     return evs
 
 
@@ -272,7 +297,7 @@ def invariant(st, hist):
     for q in st.reqs:
         if q.fn_calls > 1:
             out.append(("run-function-invoked-twice", "run #%d" % q.idx))
-        if q.kind in ("RV", "RX", "RD"):
+        if q.kind[0] == "R":
             if q.exp is None:
                 if q.res:
                     out.append(("run-result-before-function-result", "run #%d (%s, %s) fired %r" % (
@@ -303,20 +328,27 @@ def _prefix_initial(cfg, prefix):
     return make
 
 
+def _en(fam):
+    kinds = fam[0]
+    return lambda st: enabled(st, kinds)
+
+
 def shards(tier, seed):
     out = []
-    for cfg in CONFIGS:
-        out.append(["pre", list(cfg), []])
-        front = []
-        bfs(_prefix_initial(cfg, []), apply, enabled, canon, lambda st, h: (), SPLIT,
-            on_state=lambda st, h: front.append([list(e) for e in h]) if len(h) == SPLIT else None)
-        out.extend(["sub", list(cfg), h] for h in front)
+    for fi, fam in enumerate(FAMILIES[tier]):
+        for cfg in CONFIGS:
+            out.append(["pre", list(cfg), [], fi])
+            front = []
+            bfs(_prefix_initial(cfg, []), apply, _en(fam), canon, lambda st, h: (), SPLIT,
+                on_state=lambda st, h: front.append([list(e) for e in h]) if len(h) == SPLIT else None)
+            out.extend(["sub", list(cfg), h, fi] for h in front)
     return out
 
 
 def run_shard(shard, tier, seed):
     mode, cfg, prefix = shard[0], tuple(shard[1]), [tuple(e) for e in shard[2]]
-    depth = SPLIT if mode == "pre" else DEPTH[tier] - SPLIT
+    fam = FAMILIES[tier][shard[3]]
+    depth = SPLIT if mode == "pre" else fam[1] - SPLIT
     stats = Stats()
 
     def inv(st, hist):
@@ -328,7 +360,7 @@ def run_shard(shard, tier, seed):
                 stats.outcome(f)
         return invariant(st, hist)
 
-    res = bfs(_prefix_initial(cfg, prefix), apply, enabled, lambda st: hash(canon(st)), inv, depth)
+    res = bfs(_prefix_initial(cfg, prefix), apply, _en(fam), lambda st: hash(canon(st)), inv, depth)
     pre = [list(e) for e in prefix]
     for i, (sig, detail, hist) in enumerate(res.violations):
         res.violations[i] = (sig, detail, pre + [list(e) for e in hist])
